@@ -526,12 +526,14 @@ def oracle(case, obs):
     atoms0 = list(_all_atoms(d0)) if d0 is not None else []
     kinds = [k for k in (collision_kind(a) for a in atoms0) if k]
     ui0 = obs.get("ui0")
+    none_bool = ui0 is not None and any(is_jdict(f) and any(jhas(f, m) and jget(f, m) is None for m in ("enabled", "main", "optional"))
+                                        for _, f in ui0["d"])
+    if stage in ("read", "data1") and obs.get("error") == "JSONParameterValidationError" and none_bool:
+        return [{"key": "none-valued-bool-member-unreadable", "what": f"{stage} raised {obs.get('error')}: {obs.get('msg')}"}]
     if ui0 is not None:
         from props import c15
         if not c15.wf_ui(ui0):
             return []      # switch members outside C15's WfUi (a dependency on a parameter that is neither optional nor boolean, ...)
-    none_bool = ui0 is not None and any(is_jdict(f) and any(jhas(f, m) and jget(f, m) is None for m in ("enabled", "main", "optional"))
-                                        for _, f in ui0["d"])
     if stage in ("write", "read", "data1"):
         key = f"{stage}-crash-{obs.get('error')}"
         if stage in ("read", "data1") and obs.get("error") == "JSONParameterValidationError" and none_bool:
